@@ -33,7 +33,7 @@ class aggregate_node_transformer(ast.NodeTransformer):
         if (
             type(node.func) is ast.Name
             and len(node.args) == 1
-            and len(node.keywords) == 0
+            and len(getattr(node, "keywords", [])) == 0
             and not isinstance(node.args[0], ast.Starred)
         ):
             if node.func.id == "len" or node.func.id == "Count":
